@@ -3,6 +3,7 @@ from .. import anchors as A
 from .. import datarules as D
 from .. import worldrules as W
 from .. import poolrules as R
+from .. import positives as P
 from .. import witness
 
 PROP = "C06"
@@ -30,6 +31,7 @@ def run(ctx, report):
         report.floor("C06.LEAF", "leaf impls of SystemData", counts["leaf"], 6, config=config)
         report.guard("C06.STATIC", D.static_accessor, ctx, report, "C06.STATIC", facts, config)
         report.guard("C06.RELEASE", R.release, ctx, report, "C06.RELEASE", facts, config)
+    P.check(ctx, report, "C06.RELEASE", ["forget_guard", "manually_drop_guard", "leak_guard"])
     # derive corpus (probe crate; default features)
     try:
         probe = [f for f in ctx.all_facts("probe") if f.crate == "shred_probe"]
